@@ -680,6 +680,8 @@ fn main() {
                     if let Event::Vars { s, z, tau, kappa, .. } = e {
                         nsnap += 1;
                         if nsnap > 40 { break; }
+                        // thinning (quick tier): the first six iterates, then every third
+                        if !thorough && nsnap > 6 && nsnap % 3 != 0 { continue; }
                         // the internal cone list may differ from the user's (collapse, presolve): use the solver's
                         // own internal dimensions only when they match the user's list
                         // problems of the extreme-magnitude stream (data scaled by 1e+-50 / 1e+-150) are
